@@ -12,6 +12,7 @@ import (
 //
 //	op_table : list (N * optree)     one entry per `case <char>:` in source order
 //	optree   := OLeaf ty lit         t = newToken(token.TY, l.char, ...) [; t.Literal = "lit"]   (lit = [] : the character itself)
+//	          | OCall ty fn            t = newToken(token.TY, ...); t.Literal = l.fn()   (readEOL, readMultiComment)
 //	          | OSpecial name        anything else (calls of readString, readEOL, long strings, EOF ...): named, not translated
 //	          | OPeek cases dflt     if / switch on l.peekChar(); a case is (char, reads, subtree): reads = the
 //	                                 case body starts with l.readChar()
@@ -46,7 +47,7 @@ func init() {
 		}
 		var b strings.Builder
 		b.WriteString("(* GENERATED from lexer/lexer.go (NextToken) by trans; do not edit *)\nFrom Coq Require Import NArith List.\nFrom Falco Require Import Gen.Tokens.\nImport ListNotations.\nLocal Open Scope N_scope.\n")
-		b.WriteString("Inductive optree :=\n| OLeaf (ty : list N) (lit : list N)\n| OSpecial (name : list N)\n| OPeek (cases : list (N * bool * optree)) (dflt : optree).\n")
+		b.WriteString("Inductive optree :=\n| OLeaf (ty : list N) (lit : list N)\n| OCall (ty : list N) (fn : list N)\n| OSpecial (name : list N)\n| OPeek (cases : list (N * bool * optree)) (dflt : optree).\n")
 		b.WriteString("Definition op_table : list (N * optree) := [\n")
 		first := true
 		for _, cc := range sw.Body.List {
@@ -137,6 +138,10 @@ func opSeq(body []ast.Stmt) string {
 		case 2:
 			if lit, ok := literalAssign(sts[1]); ok {
 				return fmt.Sprintf("OLeaf T_%s %s", ty, runesCoq(lit))
+			}
+			// t.Literal = l.readEOL() / l.readMultiComment() ... : the literal is read by a loop of reader.go
+			if fn, ok := literalCall(sts[1]); ok {
+				return fmt.Sprintf("OCall T_%s %s", ty, runesCoq(fn))
 			}
 		}
 		return special("newToken followed by other statements")
@@ -249,6 +254,33 @@ func newTokenAssign(st ast.Stmt) (string, bool) {
 		return "", false
 	}
 	return ty.Sel.Name, true
+}
+
+// t.Literal = l.fn()
+func literalCall(st ast.Stmt) (string, bool) {
+	a, ok := st.(*ast.AssignStmt)
+	if !ok || a.Tok != token.ASSIGN || len(a.Lhs) != 1 || len(a.Rhs) != 1 {
+		return "", false
+	}
+	s, ok := a.Lhs[0].(*ast.SelectorExpr)
+	if !ok || s.Sel.Name != "Literal" {
+		return "", false
+	}
+	if x, ok := s.X.(*ast.Ident); !ok || x.Name != "t" {
+		return "", false
+	}
+	c, ok := a.Rhs[0].(*ast.CallExpr)
+	if !ok || len(c.Args) != 0 {
+		return "", false
+	}
+	f, ok := c.Fun.(*ast.SelectorExpr)
+	if !ok {
+		return "", false
+	}
+	if x, ok := f.X.(*ast.Ident); !ok || x.Name != "l" {
+		return "", false
+	}
+	return f.Sel.Name, true
 }
 
 // t.Literal = "lit"
